@@ -3,9 +3,9 @@ package props
 import (
 	"fmt"
 	"go/constant"
-	"os"
 	"go/token"
 	"go/types"
+	"os"
 	"sort"
 	"strings"
 
